@@ -210,7 +210,7 @@ pub fn judge(_cfg: &Config, case: &Case, l: &mut Local, stratum: &str) {
                             "accepted-invalid-content",
                             tag,
                             kind,
-                            format!("field {tag} with content that is certainly outside its format ({kind}) is accepted; first seen in MT{mt}"),
+                            if kind.ends_with("repetitions") { format!("{tag}: a text with more repetitions of its sequence than the type allows ({kind}) is accepted by the parser") } else { format!("field {tag} with content that is certainly outside its format ({kind}) is accepted; first seen in MT{mt}") },
                             case,
                         );
                     }
@@ -363,7 +363,7 @@ pub fn run(cfg: &Config) -> i32 {
                 if let Some(fs) = with_repetitions(base, marker, e.mt == "204", cnt) {
                     cases.push((
                         format!("MT{}/repeat:{}", e.mt, if cap == 0 { "uncapped".to_string() } else if cnt <= cap { "at-or-below-cap".to_string() } else { "above-cap".to_string() }),
-                        Case::Block4 { mt: e.mt.clone(), text: tok::render(&fs, false, false), must_reject: None },
+                        Case::Block4 { mt: e.mt.clone(), text: tok::render(&fs, false, false), must_reject: if cap > 0 && cap <= 100 && cnt > cap { Some(format!("more-than-{cap}-repetitions@MT{}", e.mt)) } else { None } },
                     ));
                 }
             }
